@@ -440,6 +440,62 @@ func ruleRoles(c *Ctx, id string, vr, ren, lookup, two *ssa.Function) {
 			}
 		}
 	}
+	// the updates themselves: every directory call of the handler names a directory and a name of the same half;
+	// the number entered under the new name is the source's; the only inode that loses a link is the replaced
+	// target (the one locked for the number found under the To name)
+	addName := P.Func("dir.AddName")
+	remName := P.Func("dir.RemName")
+	for _, sc := range scopesOf(ren) {
+		for _, b := range sc.Fn.Blocks {
+			for _, in := range b.Instrs {
+				call, ok := in.(*ssa.Call)
+				if !ok {
+					continue
+				}
+				rc := &roleCtx{c: c, req: req, lookup: lookup, two: two, seen: map[string]bool{}}
+				cal := call.Call.StaticCallee()
+				where := ""
+				if sc.Fn != ren {
+					where = sc.Fn.Name() + ":"
+				}
+				ord := func(f *ssa.Function) int {
+					k := 0
+					for _, o := range P.CallsIn(sc.Fn, funcIs(f)) {
+						if o.Pos() < call.Pos() {
+							k++
+						}
+					}
+					return k
+				}
+				switch {
+				case cal != nil && (cal == lookup || cal == addName || cal == remName):
+					dirRole := rc.roleOf(inodeArg(call), sc.S, 0)
+					nameRole := rc.roleOf(nameArg(call), sc.S, 0)
+					if nameRole == 0 {
+						continue // not a name of the request
+					}
+					okD := dirRole != 0 && dirRole&^nameRole == 0 || dirRole == roleFrom|roleTo
+					// (a directory that can be either half - the same-directory case - carries both roles)
+					R.Check(okD, id, fmt.Sprintf("NFSPROC3_RENAME|%s%s#%d directory and name of one half", where, cal.Name(), ord(cal)), P.Pos(call.Pos()),
+						fmt.Sprintf("%s is applied to the directory of the %s half with the name of the %s half", cal.Name(), roleStr(dirRole), roleStr(nameRole)), "same half",
+						fmt.Sprintf("%s looks up / updates the %s directory under the name of the %s half: the wrong directory entry is read or changed", cal.Name(), roleStr(dirRole), roleStr(nameRole)))
+					if cal == addName && len(call.Call.Args) >= 3 {
+						inumRole := rc.roleOf(call.Call.Args[2], sc.S, 0)
+						R.Check(inumRole == roleFrom && nameRole == roleTo, id, fmt.Sprintf("NFSPROC3_RENAME|%sAddName#%d enters the source under the new name", where, ord(cal)), P.Pos(call.Pos()),
+							fmt.Sprintf("the number entered (%s half) is the source's, the name (%s half) is the new one", roleStr(inumRole), roleStr(nameRole)), "number From, name To",
+							"the new name is given another object than the one renamed")
+					}
+				default:
+					if ip := unlinkOf(c, call); ip != nil {
+						r := rc.roleOf(ip, sc.S, 0)
+						R.Check(r == roleTo, id, fmt.Sprintf("NFSPROC3_RENAME|%sunlink#%d drops the replaced target", where, ord(cal)), P.Pos(call.Pos()),
+							fmt.Sprintf("the inode that loses a link derives from the %s half: it is the one locked for the number found under the new name", roleStr(r)), "To half only",
+							fmt.Sprintf("the inode unlinked derives from the %s half of the request: a rename over an existing name frees the object that was renamed (its handle goes stale although it exists, the new name points at a freed inode) and keeps the replaced one for ever", roleStr(r)))
+					}
+				}
+			}
+		}
+	}
 	if n == 0 {
 		R.Undecided(id, "NFSPROC3_RENAME|validateRename halves", P.Pos(ren.Pos()), "the handles and names validateRename checks can be related to the relocked slots", "no comparison of a handle/name parameter with a slot of the inode slice was recognised")
 	}
